@@ -151,9 +151,13 @@ def arg_list(ref: str, qry: str, out: str, mode: str = "best", cpus: int = 1, ex
     return a
 
 
-def run_cli(args: List[str], timeout: int = 600, cwd: Optional[str] = None) -> Tuple[int, str]:
+def run_cli(args: List[str], timeout: int = 600, cwd: Optional[str] = None, hashseed=None) -> Tuple[int, str]:
+    """hashseed: PYTHONHASHSEED of the child interpreter ("random" = what a user's shell gives); the harness itself runs
+    with 0, so without it every CLI run would iterate sets / dicts of strings in the same order"""
     env = dict(os.environ)
     env["PYTHONPATH"] = REPO
+    if hashseed is not None:
+        env["PYTHONHASHSEED"] = str(hashseed)
     env.pop("COMA_VERIF", None)
     p = subprocess.run([PY, "-m", "src.program"] + args, cwd=cwd or REPO, env=env, stdout=subprocess.PIPE,
                        stderr=subprocess.STDOUT, text=True, timeout=timeout)
